@@ -88,14 +88,19 @@ Definition parse_nat (s : bytes) : option N :=
   | [] => None
   | _ => option_map N.of_uint (undigits s)
   end.
+Definition parse_pos (s : bytes) : option Z :=
+  match parse_nat s with
+  | Some n => if (Z.of_N n <=? max_i64)%Z then Some (Z.of_N n) else None
+  | None => None
+  end.
 Definition parse_i64 (s : bytes) : option Z :=
   match s with
-  | 45%N :: r => match parse_nat r with
-                 | Some n => if (Z.of_N n <=? max_i64 + 1)%Z then Some (- Z.of_N n)%Z else None
-                 | None => None end
-  | _ => match parse_nat s with
-         | Some n => if (Z.of_N n <=? max_i64)%Z then Some (Z.of_N n) else None
-         | None => None end
+  | c :: r => if (c =? 45)%N
+              then match parse_nat r with
+                   | Some n => if (Z.of_N n <=? max_i64 + 1)%Z then Some (- Z.of_N n)%Z else None
+                   | None => None end
+              else parse_pos s
+  | [] => None
   end.
 
 Definition max_u32 : Z := 4294967295%Z.
